@@ -13,28 +13,38 @@ RULE = ("scenario = fit on a training series with integer index (RangeIndex or I
         "(Deseasonalizer: batches starting anywhere; Detrender: contiguous batches, update_params "
         "True/False), then transform + inverse_transform of a stretch starting at offset "
         "-sp..2*sp into / n..n+sp after the training series (all offsets 0..2*sp enumerated per sp "
-        "and model for the Deseasonalizer), and the same scenario with every index shifted by k "
-        "(k=-t0, i.e. a 0-based index, oversampled); configurations: Deseasonalizer additive / "
+        "and model for the Deseasonalizer, without and with updates), on a contiguous index or on a "
+        "GAPPED one (explicit time points with steps 1, 2, 3, sp-1, sp, sp+1, 2sp+1; about a "
+        "quarter of the stretches of every invertible kind, 4 per sp and model for the "
+        "Deseasonalizer), and the same scenario with every index shifted by k (k=-t0, i.e. a 0-based "
+        "index, oversampled); configurations: Deseasonalizer additive / "
         "multiplicative sp 2..7, ConditionalDeseasonalizer (default test, forced seasonal, forced "
         "not seasonal), Detrender(PolynomialTrendForecaster degree 0..2 / default), LogTransformer, "
         "BoxCoxTransformer (mle/pearsonr, bounds), TabularToSeriesAdaptor(StandardScaler / "
         "MinMaxScaler variants), OptionalPassthrough(passthrough True/False) around them, "
         "HampelFilter, Imputer (all methods), CosineTransformer, ACF/PACF; Period (monthly) and Datetime "
         "(daily) indices for the deseasonalizers, Period for the pointwise ones. values are dyadic rationals (k/64). "
+        "corpus/C13 pins the minimal inputs of the three repaired defects (update batch off phase, "
+        "gapped stretch, label-based window). "
         "non-trivial = the scenario ran (no exception); distinct = distinct canonical JSON case")
 TRUSTED = [
     "translator/series_c13.py (Python ast -> Gallina, fail-closed): _get_duration's integer branch, "
-    "the whole _align_seasonal body (shift expression, np.roll, np.resize), the operator per model "
-    "of _transform/_inverse_transform, Deseasonalizer.transform/inverse_transform/update/"
-    "_set_y_index, Detrender.transform/inverse_transform and BaseTransformer.fit_transform are "
-    "regenerated on every run and proved equal to the model (Bridge.v); it also checks that no "
-    "in-scope class overrides fit_transform and that ConditionalDeseasonalizer only redefines "
-    "__init__/_check_condition/fit",
-    "modelled numpy/pandas semantics: np.roll (elements leaving at the end re-enter at the front), "
-    "np.resize (repeated copies), Python % = floor modulus, Series (op) ndarray positional keeping "
-    "the Series index, Series - Series positional when both carry the same index (z_pred is "
-    "indexed by the horizon it was asked for), check_series / check_is_fitted identity on valid "
-    "input; contiguous integer index (position i has time start+i)",
+    "the whole _align_seasonal body (the per-time-point phase expression, that the comprehension "
+    "ranges over every time point of the PASSED series' index, the positional lookup in "
+    "np.asarray(self.seasonal_)), the operator per model of _transform/_inverse_transform, "
+    "Deseasonalizer.transform/inverse_transform/update/_set_y_index, Detrender.transform/"
+    "inverse_transform and BaseTransformer.fit_transform are regenerated on every run and proved "
+    "equal to the model (Bridge.v); it also checks that Deseasonalizer.fit (and the conditional "
+    "variant) sets the reference index from the passed series and keeps "
+    "seasonal_decompose(...).seasonal.iloc[:sp], that no in-scope class overrides fit_transform and "
+    "that ConditionalDeseasonalizer only redefines __init__/_check_condition/fit; the earlier "
+    "np.resize(np.roll(...)) form of _align_seasonal is NOT understood (fails closed)",
+    "modelled numpy/pandas semantics: ndarray[int array] = positional lookup (phases are in "
+    "0..sp-1, so numpy's negative-index wrap-around never applies), Python % = floor modulus, "
+    "Series (op) ndarray positional keeping the Series index, Series - Series positional when both "
+    "carry the same index (z_pred is indexed by the horizon it was asked for), check_series / "
+    "check_is_fitted identity on valid input; a series is its list of (time point, value) "
+    "observations in index order, the index may start anywhere and have gaps",
     "oracles (arguments of the model, universally quantified in the theorems, read from the fitted "
     "object in the correspondence run): seasonal_ of statsmodels.seasonal_decompose (assumed to "
     "depend on the training VALUES only), the trend forecast (PolynomialTrendForecaster "
@@ -55,7 +65,10 @@ MODELLED = [
     "Detrender.update: the forecaster's own update/refit is an oracle (any trend function); gapped "
     "or overlapping update batches and update(update_params=True) before any horizon was seen "
     "(ValueError, property C10's finding) are not generated",
-    "non-contiguous integer indices and DataFrame inputs are outside the model; Period/Datetime "
+    "the TRAINING series is always contiguous (statsmodels decomposes positionally; "
+    "C13_training_series_component is stated for a contiguous training series); gapped indices are "
+    "generated for the transformed stretch only, on Int64 / Period / Datetime indices; DataFrame "
+    "inputs are outside the model; Period/Datetime "
     "indices are run for the deseasonalizers with time = month ordinal / day number, but "
     "_get_duration's date branch (coercion through the frequency) is not regenerated - for those "
     "index types the tie is the correspondence run only",
@@ -676,8 +689,10 @@ def _check_run(case, r, k):
             sp = cfg["sp"]
             full = [_f(v) for v in r["full"]]
             seas = [_f(v) for v in r["fitted"]["seasonal"]]
-            if len(full) != len(z) or not all(_close(a, b) for a, b in zip(full[:sp], seas)) \
-                    or len(seas) != sp:
+            if len(full) != len(z):
+                return ("training-decomposition-length: the decomposition inside fit_transform(y) "
+                        "saw %d observations, y has %d" % (len(full), len(z)))
+            if not all(_close(a, b) for a, b in zip(full[:sp], seas)) or len(seas) != sp:
                 return ("seasonal-first-period: seasonal_ = %s is not the first period of the "
                         "decomposition's seasonal series %s" % (seas, full))
             for i, (x, a, c) in enumerate(zip(z, zt, full)):
